@@ -10,6 +10,12 @@
 //     recover(); the outcome must be a panic (fail closed).  For values and primitive programs the
 //     outcome is also compared with the Lean model (driver drv_c04, repaired-code model `V`/`R`;
 //     the as-found model `VF`/`RF` classifies a disagreement as the short-read defect D01);
+//     The decode is the FULL decode: the reader and then every lazy accessor of the decoded object
+//     (Get…() returning tables/lists: ZipPack.GetRecords, StatGeneralPack.GetDataTable, …), in the
+//     prefix sweep, the hostile sweep and the child's allocation measurement alike.  The complete
+//     encoding must be consumed exactly (Available()==0), else the shorter prefix is reported.
+//  2b. stream sweep (stream.go): the same truncation points through io.NewDataInputNet over an
+//     in-memory net.Conn with varied fragmentation and the four ways a connection can end.
 //  3. hostile sweep: the offsets of every encoding are overwritten with length/count/tag patterns
 //     (-1, 0x7fffffff, 0x80000000, 65535, 32767, blob markers 254/255 with huge lengths, decimal
 //     forms of 2^31-1 / 2^63-1, unknown tags) and decoded in a CHILD process (this binary re-executed
@@ -109,13 +115,23 @@ func generate(rng *vh.Rng, thorough bool, rep *vh.Report) []enc {
 			return
 		}
 		if consumed < len(b) {
+			// exact consumption: the reader must take everything its writer wrote, otherwise every
+			// prefix that only drops unread bytes decodes to the same object
 			rep.Count("gen:reader-leaves-trailing-bytes:" + typ)
+			rep.Fail("property", "prefix-decodes:"+typ,
+				fmt.Sprintf("%s: the reader consumes only %d of the %d bytes its writer produced, so the %d-byte strict prefix decodes to an object", typ, consumed, len(b), consumed),
+				replayCase{Mode: "prefix", Kind: kind, Typ: typ, Hex: vh.Hex(b), N: consumed})
 			b = b[:consumed]
 			if ok3, c3 := valid(kind, b); !ok3 || c3 != len(b) {
 				return
 			}
 		}
 		rep.Count("gen:" + typ)
+		if vh.Guard(func() { decodeFull(kind, b) }).OK() {
+			rep.Count("gen:full-decode-with-accessors-ok")
+		} else {
+			rep.Count("gen:accessor-panics-on-valid-encoding:" + typ)
+		}
 		got[typ]++
 		encs = append(encs, enc{kind, typ, b})
 	}
@@ -174,6 +190,64 @@ func generate(rng *vh.Rng, thorough bool, rep *vh.Report) []enc {
 			typ = "step." + typeName(steps[0])[5:]
 		}
 		add("steps:"+strconv.Itoa(n), typ, b, ok)
+	}
+	// steps of the types that are not in CreateStep, and every layout version of the versioned ones
+	for _, name := range stepxNames {
+		for i := 0; i < 8*mul; i++ {
+			o := stepxCtors[name]()
+			fillObj(rng, o, 2)
+			if h, ok := o.(*step.HttpcStepX); ok {
+				h.Version = byte(i % 4) // 0, 1 (placeholder decimal), 2 (step id, driver, url, param), 3
+			}
+			b, ok := tryEncode(func() []byte {
+				out := gio.NewDataOutputX()
+				o.Write(out)
+				return out.ToByteArray()
+			})
+			add("stepx:"+name, "step."+name, b, ok)
+		}
+	}
+	for i := 0; i < 12*mul; i++ {
+		h := step.NewHttpcStepXVersion(byte(i % 4))
+		fillObj(rng, h, 2)
+		h.Version = byte(i % 4)
+		b, ok := tryEncode(func() []byte { return step.ToBytesStep([]step.Step{h}) })
+		add("steps:1", fmt.Sprintf("step.HttpcStepX.v%d", i%4), b, ok)
+	}
+	// stat records in every version their writer supports
+	for i := 0; i < 12*mul; i++ {
+		x := pack.NewTransactionRec()
+		fillObj(rng, x, 1)
+		ver := byte(2 + i%3)
+		b, ok := tryEncode(func() []byte {
+			out := gio.NewDataOutputX()
+			pack.WriteTransactionRec(out, x, ver)
+			return out.ToByteArray()
+		})
+		add("txrec", fmt.Sprintf("pack.TransactionRec.v%d", ver), b, ok)
+		svr := &pack.ServiceRec{}
+		fillObj(rng, svr, 1)
+		for k, n := 0, rng.Intn(3); k < n; k++ {
+			if svr.SqlMap == nil {
+				svr.SqlMap, svr.HttpcMap = pack.CreateMap(4), pack.CreateMap(4)
+			}
+			svr.SqlMap.Put(int32(rng.U64()), pack.NewTimeCount(int32(k), 1, genInt(rng, 5)))
+			svr.HttpcMap.Put(int32(rng.U64()), pack.NewTimeCount(int32(k), 0, genInt(rng, 5)))
+		}
+		b, ok = tryEncode(func() []byte {
+			out := gio.NewDataOutputX()
+			pack.NewStatServicePack().WriteRec(out, svr)
+			return out.ToByteArray()
+		})
+		add("servicerec", "pack.ServiceRec", b, ok)
+		hr := pack.NewHttpcRec()
+		fillObj(rng, hr, 1)
+		b, ok = tryEncode(func() []byte { out := gio.NewDataOutputX(); hr.Write(out); return out.ToByteArray() })
+		add("httpcrec", "pack.HttpcRec", b, ok)
+		sr := pack.NewSqlRec()
+		fillObj(rng, sr, 1)
+		b, ok = tryEncode(func() []byte { out := gio.NewDataOutputX(); sr.Write(out); return out.ToByteArray() })
+		add("sqlrec", "pack.SqlRec", b, ok)
 	}
 	// transaction records
 	for i := 0; i < 40*mul; i++ {
@@ -367,6 +441,7 @@ func main() {
 	}
 
 	prefixSweep(env, rep, rng, encs)
+	streamSweep(env, rep, rng, encs)
 	hostileSweep(env, rep, rng, encs, self)
 	nestedSweep(env, rep, rng, self)
 	witnesses(env, rep, self)
@@ -398,7 +473,7 @@ func prefixSweep(env *vh.Env, rep *vh.Report, rng *vh.Rng, encs []enc) {
 			rs := make([]prefixRes, 0, len(j.lens))
 			for _, n := range j.lens {
 				var avail int32
-				o := vh.Guard(func() { avail = decode(e.kind, e.b[:n]) })
+				o := vh.Guard(func() { avail, _ = decodeFull(e.kind, e.b[:n]) })
 				rs = append(rs, prefixRes{j.e, n, o.OK(), avail})
 			}
 			results[j.e] = rs
@@ -832,13 +907,15 @@ func runReplay(env *vh.Env, rep *vh.Report, self string) {
 	var hc []hcase
 	for _, c := range file.Cases {
 		switch c.Mode {
+		case "stream":
+			replayStream(rep, c)
 		case "prefix":
 			b := vh.UnHex(c.Hex)
 			if c.N > len(b) {
 				c.N = len(b)
 			}
 			var avail int32
-			o := vh.Guard(func() { avail = decode(c.Kind, b[:c.N]) })
+			o := vh.Guard(func() { avail, _ = decodeFull(c.Kind, b[:c.N]) })
 			rep.Case("replay:"+c.Kind+":"+c.Hex+"@"+strconv.Itoa(c.N), true)
 			if o.OK() && c.N < len(b) {
 				key := "prefix-decodes:" + c.Typ
